@@ -161,6 +161,8 @@ func configsFor(part string, thorough bool) []*xcfg {
 				Script: []string{"T1", "H1", "P1", "R1", "H1", "T2", "H2", "P2", "H2", "R1", "H1", "R4", "H1"}},
 			{Name: "3v-remove-transfer-zombie-dev", Voters: v3, Fifo: true, LazyApply: true, KeepRemovedRunning: true, MaxDev: 2, MaxTerm: 6, MaxIndex: 10, ConfChanges: 1, Transfers: 1, Timeouts: 1, Drops: 1,
 				CCMenu: ccMenu, Script: []string{"T1", "H1", "C1:2", "H1", "L1>2", "H1", "H1"}},
+			{Name: "3v+2nv-checkquorum-partition-dev", Voters: v3, NonVotings: []uint64{4, 5}, Fifo: true, CheckQuorum: true, MaxDev: 2, MaxTerm: 6, MaxIndex: 10, Partitions: 1, Heartbeats: 1, CheckQuorums: 1, Drops: 1,
+				Script: []string{"T1", "H1", "P1", "H1", "Q1", "H1", "Q1", "H1", "Q1"}},
 			{Name: "3v-remove-dev", Voters: v3, Fifo: true, LazyApply: true, MaxDev: pick(2, 3), MaxTerm: 6, MaxIndex: 10, ConfChanges: 1, Timeouts: 3, Drops: 2, Proposals: 1,
 				CCMenu: ccMenu, Script: []string{"T1", "H1", "C1:2", "H1", "H1", "T2", "P1", "H1"}},
 		}
